@@ -21,22 +21,13 @@ EntityTranslation rsOperationFacet::MergeWith(const RSForm& schema2) {
     insertionOrder.emplace_back(entity);
   }
 
-  StrSubstitutes contextReplace{};
+  // Note: copies are renamed once, by the complete alias map, after all of them are inserted.
+  // Renaming a copy on insertion and again by the complete map corrupts mentions of its own name
+  const auto inserted = core.InsertCopy(insertionOrder, schema2.Core());
   EntityTranslation equateParams{};
-  SetOfEntities inserted{};
-  for (const auto entity : insertionOrder) {
-    const auto& etalon = schema2.GetRS(entity);
-    const auto& newCst = core.GetRS(core.InsertCopy(entity, schema2.Core()));
-    contextReplace.insert({ etalon.alias, newCst.alias });
-    inserted.insert(newCst.uid);
-    equateParams.Insert(entity, newCst.uid);
+  for (size_t i = 0; i < std::size(insertionOrder); ++i) {
+    equateParams.Insert(insertionOrder.at(i), inserted.at(i));
   }
-
-  const auto mapping = CreateTranslator(contextReplace);
-  for (const auto entity : inserted) {
-    core.core.Translate(entity, mapping);
-  }
-  core.NotifyModification();
   return equateParams;
 }
 
